@@ -427,6 +427,10 @@ func (c *wsConn) call(rid, action string, params interface{}, cb func(result jso
 	}
 
 	sub.CanCall(action, func(err error) {
+		// The access response may be handled after the connection is disposed
+		if c.disposing {
+			return
+		}
 		if err != nil {
 			cb(nil, "", err)
 			return
@@ -747,8 +751,8 @@ func (c *wsConn) ExpandCID(rid string) string {
 
 func (c *wsConn) TokenReset(tids map[string]bool, subject string) {
 	c.Enqueue(func() {
-		// Exit if no token ID is set, or if it isn't affected.
-		if c.tid == "" || !tids[c.tid] {
+		// Exit if disposed, if no token ID is set, or if it isn't affected.
+		if c.disposing || c.tid == "" || !tids[c.tid] {
 			return
 		}
 		c.serv.cache.CustomAuth(c, subject, "", c.token, nil, func(_ json.RawMessage, _ string, _ *codec.Meta, err error) {
